@@ -181,7 +181,7 @@ func c17Run(c c17Case) (string, error) {
 				flags |= 1
 			}
 		}
-		table = append(table, fmt.Sprintf("(mkInfo %s %s %s %d %s)", gData(res.Data), gList(u16LineLens(text)), gBool(text == ""), flags, c17Covers(text, res.Data)))
+		table = append(table, fmt.Sprintf("(mkInfo %s %s %s %d %s %s)", gData(res.Data), gList(u16LineLens(text)), gBool(text == ""), flags, c17Covers(text, res.Data), gBytes(text)))
 	}
 	// id base: one more full on the scratch uri with a non-empty text
 	_ = srv.DidOpen(ctx, &protocol.DidOpenTextDocumentParams{TextDocument: protocol.TextDocumentItem{URI: scratch, Text: "x\n"}})
